@@ -2101,8 +2101,14 @@ impl VirtualFileSystem for Memfs {
     /// assert_vfs_read_all!(vfs, &file, "foobar 1".to_string());
     /// ```
     fn write_all<T: AsRef<Path>, U: AsRef<[u8]>>(&self, path: T, data: U) -> RvResult<()> {
-        let mut f = self.write(path)?;
-        f.write_all(data.as_ref())?;
+        // Create the file if needed and replace its data under a single write guard so that a
+        // new file is never observable without its content
+        let mut guard = self.write_guard();
+        let path = self._abs(&guard, path)?;
+        self._add(&mut guard, MemfsEntry::opts(&path).file().build())?;
+        if let Some(file) = guard.get_file_mut(&path) {
+            file.data = data.as_ref().to_vec();
+        }
         Ok(())
     }
 
